@@ -212,6 +212,14 @@ def forms(word, bits, hi):
     full = 1 << bits
     lens = {0, 1, 7, 8, 9, hi // w, hi // w + 1, hi // 2 + 1, hi - 7, hi, (full + w - 1) // w, (full + w - 1) // w + 1, (full // 2) // w, (full // 2) // w + 1,
             (2 * full + w - 1) // w, 3 * ((full + w - 1) // w)}
+    # a run-time dividend over a constant divisor that is (or is not) zero ON THE TARGET: literals beyond the word, written, folded, or held in a const variable
+    for d in (full, -full, 3 * full, 2 * full, full + 1, full - 1, hi + 1, 1, -1, 7):
+        for op in ('/', '%'):
+            yield f'run-time dividend {op} literal {d}', [(Bin(op, rv, Lit(INT, d)), 'value')], {}
+            yield f'run-time dividend {op} const variable {d}', [(Bin(op, rv, Var('kd', INT, d)), 'decl')], {'kd': (INT, d, Lit(INT, d))}
+        half = 1 << (bits // 2)
+        if d % half == 0 and d > 0:
+            yield f'run-time dividend / folded product {d}', [(Bin('/', rv, Bin('*', Lit(INT, half), Lit(INT, d // half))), 'value')], {}
     for el in (INT, BOOL, BYTE, STRING):
         for n in sorted(x for x in lens if 0 <= x <= hi):
             yield f'{el} array of constant length {n}', [(Lit(INT, n), ('vla', el))], {}
@@ -244,14 +252,20 @@ def has_zero_divisor(e):
 
 def nowrap_suspect(e, lo, hi):
     """the constant form contains a sub-expression whose exact value leaves the signed word range, or an `is byte` / byte-typed constant outside 0..255"""
+    # only an OPERATION evaluated at compile time can be an instance of the finding (the folder computes on unbounded integers): its own
+    # value or one of its operands leaves the range.  A bare out-of-range literal or const variable that meets a run-time operand is not
+    # folded at all - it reaches the assembler as an immediate and wraps there, like every other immediate.
+    def out(x):
+        if getattr(x, 't', None) not in (INT, BYTE) or not is_const(x):
+            return False
+        v = const_eval(x)
+        if v is None:
+            return False
+        return not (lo <= int(v) <= hi) or (x.t == BYTE and not (0 <= int(v) <= 255))
     for x in A.walk_expr(e):
-        if getattr(x, 't', None) in (INT, BYTE) and is_const(x):
-            v = const_eval(x)
-            if v is None:
-                continue
-            if not (lo <= int(v) <= hi):
-                return 'fold-nowrap'
-            if x.t == BYTE and not (0 <= int(v) <= 255):
+        if isinstance(x, (Bin, Un, Cast, Spec)) and is_const(x):
+            kids = [getattr(x, a) for a in ('a', 'b', 'e') if a in x.__slots__]
+            if out(x) or any(out(k) for k in kids):
                 return 'fold-nowrap'
     return None
 
@@ -371,8 +385,8 @@ def check_items(res, items, consts, word, lo, hi, with_model=False):
         # disagreement: who is wrong?
         ref, why = diff.model_run(prog, [], word)
         mech = None
-        if ref is not None and diff.compare_streams(ref, ov) is None and suspect:
-            mech = suspect
+        if ref is not None and diff.compare_streams(ref, ov) is None and suspect and oc.klass not in ('TRAP', 'HALT'):
+            mech = suspect          # (a trap or a committed halt is never explained by arithmetic on the wrong integers)
         who = 'the twin agrees with wrapped arithmetic' if (ref is not None and diff.compare_streams(ref, ov) is None) else \
               'the constant form agrees with the model' if (ref is not None and diff.compare_streams(ref, oc) is None) else 'neither side agrees with the model'
         runner.fail(res, 'M-FOLD', f'constant form prints {oc.out[:60]!r} ({oc.klass}) but its run-time twin prints {ov.out[:60]!r} ({ov.klass}); {who}',
